@@ -677,3 +677,75 @@ Proof.
     + destruct (IH (acc + g_amt g)) as (rest & ->). exists rest. reflexivity.
   - intros Y HY. rewrite Hg in Y2. exact (yearly_extension_closed_years period Y to_day _ gls1 ext _ _ HY Y1 Y2).
 Qed.
+
+(** * A''. well-formedness of the truncated history follows from that of the full one *)
+Lemma NoDup_app_l {A} (a b : list A) : NoDup (a ++ b) -> NoDup a.
+Proof.
+  induction a as [|x a IH]; cbn [app]; intros H; [constructor|]. inversion H as [|? ? Hni Hnd]; subst.
+  constructor; [|apply IH; exact Hnd]. intros Hin. apply Hni. apply in_or_app. left. exact Hin.
+Qed.
+
+Lemma wf_prefix lots lots2 sched evs evs2 T :
+  wf (lots ++ lots2) sched (evs ++ evs2) -> lots <> [] ->
+  (forall e, In e evs -> e_us e <= T) -> (forall l, In l lots2 -> T < utc_us (i_ts l)) ->
+  wf lots sched evs.
+Proof.
+  intros (W1 & W2 & W3 & W4 & W5 & W6 & W7 & W8 & W9 & W10 & W11 & W12) Hne HT HL.
+  assert (Hlen : forall i, (i < length lots)%nat -> (i < length (lots ++ lots2))%nat) by (intros i Hi; rewrite app_length; lia).
+  assert (Hn : forall i, (i < length lots)%nat -> lotn (lots ++ lots2) i = lotn lots i) by (intros i Hi; apply lotn_app_l; exact Hi).
+  assert (Helen : forall i, (i < length evs)%nat -> (i < length (evs ++ evs2))%nat) by (intros i Hi; rewrite app_length; lia).
+  unfold wf. repeat split.
+  - intros i j Hij. specialize (W1 i j ltac:(split; [lia|apply Hlen; lia])). unfold lot_us in *. rewrite !Hn in W1 by lia. exact W1.
+  - unfold lots_distinct_rows in *. rewrite map_app in W2. exact (NoDup_app_l _ _ W2).
+  - intros i Hi. specialize (W3 i (Hlen i Hi)). rewrite Hn in W3 by exact Hi. exact W3.
+  - exact Hne.
+  - intros i j d Hij. specialize (W5 i j d ltac:(split; [lia|apply Helen; lia])). rewrite !app_nth1 in W5 by lia. exact W5.
+  - intros e He. apply W6. apply in_or_app. left. exact He.
+  - unfold evs_distinct_rows in *. rewrite map_app in W7. exact (NoDup_app_l _ _ W7).
+  - intros i j d Hij. specialize (W8 i j d ltac:(split; [lia|apply Helen; lia])). rewrite !app_nth1 in W8 by lia. exact W8.
+  - intros e He Hearn. destruct (W9 e (in_or_app _ _ _ (or_introl He)) Hearn) as (i & Hi & Hr & Hu & Ha).
+    assert (Hi' : (i < length lots)%nat).
+    { destruct (lt_dec i (length lots)) as [Hlt|Hge]; [exact Hlt|exfalso].
+      pose proof (lot_us_app_r lots lots2 T HL i ltac:(lia)) as Hgt. specialize (HT e He). lia. }
+    exists i. unfold lot_us in *. rewrite Hn in Hr, Hu, Ha by exact Hi'. auto.
+  - intros e e' He He'. apply W10; apply in_or_app; left; assumption.
+  - intros e He. apply W11. apply in_or_app. left. exact He.
+  - exact W12.
+Qed.
+
+Section TruncWf.
+Variables (D : Z) (sched : list (Z * meth)) (t : txs) (evs : list txn).
+Hypothesis Hts : time_sorted t.
+Hypothesis Hmono : dates_monotone t.
+Hypothesis HE : taxable_events t = Ok evs.
+Hypothesis WF : wf (t_ins t) sched (map event_of evs).
+Hypothesis Hne : t_ins (trunc_txs D t) <> [].
+
+Theorem wf_trunc : wf (t_ins (trunc_txs D t)) sched (map event_of (filter (fun x => txn_day x <=? D) evs)).
+Proof.
+  set (t' := trunc_txs D t) in *. set (evs' := filter (fun x => txn_day x <=? D) evs).
+  set (ins2 := filter (fun a => D <? in_day a) (t_ins t)). set (evs2 := filter (fun x => D <? txn_day x) evs).
+  assert (Hins : t_ins t = t_ins t' ++ ins2) by (apply (day_sorted_split in_day D); exact (ins_day_sorted t Hts Hmono)).
+  assert (Hevs : evs = evs' ++ evs2) by (apply (day_sorted_split txn_day D); exact (evs_day_sorted t evs Hmono HE)).
+  destruct (exists_separator (map t_us evs') (map in_us ins2)) as (T & HK & HR).
+  { intros k r Hk Hr. apply in_map_iff in Hk. destruct Hk as (x & <- & Hx). apply filter_In in Hx. destruct Hx as [Hx Hd].
+    apply in_map_iff in Hr. destruct Hr as (a & <- & Ha). apply filter_In in Ha. destruct Ha as [Ha Hd'].
+    apply (us_strict D t Hmono x (TIn a)); [apply (taxable_in_replay t evs); assumption|apply replay_in; exact Ha|lia|].
+    unfold txn_day. cbn [t_ts]. fold (in_day a). lia. }
+  apply (wf_prefix (t_ins t') ins2 sched (map event_of evs') (map event_of evs2) T).
+  - rewrite <- Hins, <- map_app, <- Hevs. exact WF.
+  - exact Hne.
+  - intros e He. apply in_map_iff in He. destruct He as (x & <- & Hx). cbn [event_of e_us]. apply HK. apply (in_map t_us). exact Hx.
+  - intros l Hl. change (utc_us (i_ts l)) with (in_us l). apply HR. apply (in_map in_us). exact Hl.
+Qed.
+End TruncWf.
+
+Theorem compute_tax_to_date_equiv_built : forall period from_day D D' allow exs hos sched t evs cd,
+  time_sorted t -> dates_monotone t -> taxable_events t = Ok evs ->
+  wf (t_ins t) sched (map event_of evs) -> t_ins (trunc_txs D t) <> [] -> D <= D' ->
+  compute_tax period from_day D allow exs hos sched t = Ok cd ->
+  compute_tax period from_day D' allow exs hos sched (trunc_txs D t) = Ok (restrict D t cd).
+Proof.
+  intros period from_day D D' allow exs hos sched t evs cd Hts Hm HE WF Hne HD HC.
+  exact (compute_tax_to_date_equiv period from_day D D' allow exs hos sched t evs cd Hts Hm HE WF (wf_trunc D sched t evs Hts Hm HE WF Hne) HD HC).
+Qed.
